@@ -198,6 +198,18 @@ func main() {
 		os.Exit(cmdCheck(os.Args[2:]))
 	case "replay":
 		os.Exit(cmdReplay(os.Args[2:]))
+	case "list":
+		// property id and harness name of every registered harness
+		var ids []string
+		for id := range registry {
+			ids = append(ids, id)
+		}
+		sort.Strings(ids)
+		for _, id := range ids {
+			for _, h := range registry[id].Harnesses(true) {
+				fmt.Println(id, h.Func)
+			}
+		}
 	default:
 		fmt.Fprintln(os.Stderr, "unknown command "+strings.Join(os.Args[1:], " "))
 		os.Exit(2)
